@@ -139,3 +139,52 @@ Lemma listed_connect_faults_classified :
   zmem errno_ECONNREFUSED connect_giveup = false /\
   zmem errno_ENETUNREACH connect_giveup = false.
 Proof. vm_compute. repeat split; reflexivity. Qed.
+
+(* ---- the poll call, from the regenerated guards of EPollPoller::poll / PollPoller::poll ------- *)
+(* what epoll_wait / poll returns for the model's poll_res: (return value, errno) *)
+Definition poll_ret (r : poll_res) : Z * Z :=
+  match r with PReady n => (Z.of_nat n, 0) | PErr e => (-1, e) end.
+
+(* Poller::poll re-assembled from its guards:
+     if (numEvents > 0) fillActiveChannels(numEvents, ..); else if (numEvents == 0) ; else { if (savedErrno != EINTR) LOG_SYSERR; }
+   result: (channels handed to the loop, the loop goes on, an error line is logged) *)
+Definition poll_src (some none log : Z -> bool) (r : poll_res) : nat * bool * bool :=
+  let '(n, err) := poll_ret r in
+  if some n then (Z.to_nat n, true, false)
+  else if none n then (0%nat, true, false)
+  else (0%nat, true, log err).
+
+Lemma poll_src_generic some none log :
+  (forall n, some (Z.of_nat n) = (0 <? n)%nat) -> some (-1) = false -> none (-1) = false ->
+  forall r, fst (poll_src some none log r) = poll_iteration r.
+Proof.
+  intros Hs He Hn [n|e]; unfold poll_src, poll_ret, poll_iteration.
+  - rewrite Hs. destruct n as [|n]; cbn [Nat.ltb Nat.leb].
+    + destruct (none (Z.of_nat 0)); reflexivity.
+    + rewrite Nat2Z.id. reflexivity.
+  - rewrite He, Hn. reflexivity.
+Qed.
+
+Lemma some_test_nat n : (Z.of_nat n >? 0) = (0 <? n)%nat.
+Proof.
+  destruct (Nat.ltb_spec 0 n) as [E|E].
+  - apply Z.gtb_lt. lia.
+  - assert (n = 0%nat) by lia. subst. reflexivity.
+Qed.
+
+(* both back-ends: an interrupted (or otherwise failed) poll call hands no channel to the loop and
+   the loop goes on; EINTR is not even logged; no branch of the error path fills channels, quits
+   or aborts *)
+Lemma poll_is_source :
+  (forall r, fst (poll_src epoll_poll_some_test epoll_poll_none_test epoll_poll_log_test r) = poll_iteration r) /\
+  (forall r, fst (poll_src ppoll_poll_some_test ppoll_poll_none_test ppoll_poll_log_test r) = poll_iteration r) /\
+  snd (poll_src epoll_poll_some_test epoll_poll_none_test epoll_poll_log_test (PErr errno_EINTR)) = false /\
+  snd (poll_src ppoll_poll_some_test ppoll_poll_none_test ppoll_poll_log_test (PErr errno_EINTR)) = false /\
+  epoll_poll_fills_only_when_some = true /\ epoll_poll_log_test_in_error_branch = true /\
+  ppoll_poll_fills_only_when_some = true /\ ppoll_poll_log_test_in_error_branch = true.
+Proof.
+  split; [|split].
+  - apply poll_src_generic; [intros n; apply some_test_nat|reflexivity|reflexivity].
+  - apply poll_src_generic; [intros n; apply some_test_nat|reflexivity|reflexivity].
+  - repeat split; reflexivity.
+Qed.
